@@ -17,6 +17,9 @@ RULE = ('Hypothesis: texts over Latin-1, BMP and astral characters x '
         '<dtml-var v>.  Non-trivial: the text has a non-ASCII character '
         'whose encoding differs between enc and Latin-1 and the rendering '
         'has >= 2 pieces.  Distinct = case hash.')
+RULE += (
+         'Also: page names alike str / bytes methods read in loops '
+         'over text / bytes elements. ')
 ASSUMPTIONS = [
     'only the insertion forms the statement names are asserted; other '
     'modifiers applied to bytes (upper, size, newline_to_br, %-formats) are '
